@@ -36,6 +36,12 @@ def _model(E, templates):
         # the solver holds status 'optimal' and a primal solution of the model as it was before the bounds below
         m.objective = {m.reactions.get_by_id(r): c for r, c in obj.items()}
         m.optimize()
+        if SOLVED_BEFORE[0] == "fixed":
+            # ... and the helper constraint of an earlier fix_objective_as_constraint call (outside any context) is still
+            # there, fixed at the optimum of the model as it was then; pfba / moma replace it by their own of the same name
+            from cobra.util.solver import fix_objective_as_constraint
+            m.objective_direction = direction
+            fix_objective_as_constraint(m)
     networks.symbolic_bounds(E, m, which=(ids if w is None else ids[:w]))
     E.note(template=tid, objective=obj, direction=direction)
     return m, obj, direction, ids
@@ -66,7 +72,9 @@ def c09_pfba(E, templates=QUICK_T, fractions=(1, Fraction(1, 2), 0)):
     how = E.pick("objective_arg", ["model.objective", "objective=dict"])
     sub = E.pick("reactions", ["None", "objects", "ids"])
     objd = {m.reactions.get_by_id(r): c for r, c in obj.items()}
-    if how == "model.objective":
+    if SOLVED_BEFORE[0] == "fixed":
+        arg_obj = None          # the objective object (and its name) stay the ones the earlier helper constraint was made for
+    elif how == "model.objective":
         m.objective = objd
         arg_obj = None
     else:
@@ -346,9 +354,9 @@ def _is0(x):
 
 
 def c09_solved_before(E):
-    SOLVED_BEFORE[0] = True
+    SOLVED_BEFORE[0] = E.pick("earlier", [True, "fixed"])
     try:
-        if E.flag("moma"):
+        if SOLVED_BEFORE[0] is True and E.flag("moma"):
             return c09_moma(E, templates=(("T2", 2), ("T3", 2)))
         return c09_pfba(E, templates=(("T2", 2), ("T3", 2)), fractions=(1, Fraction(1, 2)))
     finally:
